@@ -247,8 +247,12 @@ func (k Key) Expires() time.Time {
 // SetExpires sets the expiration date for the key.
 func (k Key) SetExpires(value time.Time) {
 	expire := value.Unix()
-	if expire > 0 {
-		expire = expire - timeOffset
+	if expire != 0 {
+		// Zero means 'never expires'. Anything before the time offset can not be represented
+		// and would wrap around to the far future, store it as the earliest expiration instead.
+		if expire = expire - timeOffset; expire <= 0 {
+			expire = 1
+		}
 	}
 	k[20] = byte(uint32(expire) >> 24)
 	k[21] = byte(uint32(expire) >> 16)
